@@ -79,7 +79,11 @@ remapped (C,O); M6 invalid meta keys dropped (C,O after adding is_valid probes t
 shares metadata_props (C,O); M8 functionalize without clone (O only - the 2-line wrapper is tied by the oracle);
 M9 GRAPHS attributes shared (C,O); M10 node metadata_props dict shared (C,O); M12 deep_copy ignored for output
 meta (C,O); M13 Graph.clone ignores allow_outer_scope_values=False (C,O); M14 specs about node inputs not
-remapped (C,O).  Applying the proposed fix makes the
+remapped (C,O).  Seeded C13-m3 (clone_graph passes unmapped declared outputs through) was first MISSED: generated
+views only listed outputs produced inside the view.  Now views list foreign outputs / extra foreign inputs at
+random positions, nested graphs list foreign (enclosing-scope intermediate) outputs, the traversal records "out"
+events, the oracle requires rejection for any declared output without a clone (corpus view_foreign_output) and
+compares the original's snapshot after a rejected as well as an accepted clone -> caught (C,O).  Applying the proposed fix makes the
 correspondence break and the known finding stale, as it must.
 """
 
@@ -475,8 +479,14 @@ class Gen:
                     sharding_specs=(ir.ShardingSpec(value=spec_v, device=(0,)),), pipeline_stage=None),)
             nodes.append(n)
             avail += list(n.outputs)
-        outs_pool = [o for n in nodes for o in n.outputs] + ins
+        # (a value already registered as output of a nested graph cannot be listed again: Graph() refuses)
+        outs_pool = [o for o in [o for n in nodes for o in n.outputs] + ins if not o.is_graph_output()]
         outs = [rng.choice(outs_pool) for _ in range(rng.randrange(0, 3))] if outs_pool else []
+        if depth > 0 and rng.random() < 0.12:
+            # a FOREIGN output: an intermediate value of an enclosing scope, not produced in this graph
+            foreign = [v for v in outer if v.producer() is not None and not v.is_graph_output()]
+            if foreign:
+                outs.insert(rng.randrange(len(outs) + 1), rng.choice(foreign))
         order = list(nodes)
         unsorted = False
         if len(nodes) >= 2 and rng.random() < 0.3:
@@ -541,6 +551,15 @@ def mk_view(gen: Gen, g, rng):
     if ins and rng.random() < 0.15:
         ins.pop(rng.randrange(len(ins)))           # left out: an outer-scope value for the view
     outs = [o for n in sl for o in n.outputs][: rng.randrange(0, 3)]
+    # values defined outside the viewed region, at every position: a declared output produced by a node that is
+    # not in the view (clone must be rejected), an extra (unused) input produced outside
+    outside = [o for n in nodes if all(n is not m for m in sl) for o in n.outputs]
+    if outside and rng.random() < 0.25:
+        outs.insert(rng.randrange(len(outs) + 1), rng.choice(outside))
+    if outside and rng.random() < 0.15:
+        extra = rng.choice(outside)
+        if all(extra is not w for w in ins + outs):
+            ins.insert(rng.randrange(len(ins) + 1), extra)
     view = ir.GraphView(ins, outs, nodes=sl, initializers=inits, name=gen.fresh("view"),
                         opset_imports=dict(g.opset_imports),
                         metadata_props={"vk": "vv"} if rng.random() < 0.3 else None)
@@ -614,8 +633,22 @@ def traversal_events(ir, g):
                         graph(s)
             for v in n.outputs:
                 ev.append(("def", v))
+        for v in gr.outputs:
+            ev.append(("out", v))      # looked up in the value map after the nodes: must have a clone by then
     graph(g)
     return ev
+
+
+def unmapped_outputs(ir, g):
+    """Declared outputs (of g or a nested graph) that no input/initializer/node output defines before the end
+    of their graph in the cloner's traversal: such a graph cannot be cloned (with or without the flag)."""
+    seen, out = set(), []
+    for k, v in traversal_events(ir, g):
+        if k == "def":
+            seen.add(id(v))
+        elif k == "out" and id(v) not in seen:
+            out.append(v)
+    return out
 
 
 def is_sorted(ir, g) -> bool:
@@ -1081,6 +1114,18 @@ def builtin_scenario(name: str):
         model = ir.Model(g, ir_version=10)
         return {"model": model, "gen": gen, "target": model, "univ": [model], "kind": 3, "allow": False, "deep": False,
                 "clone": lambda: model.clone()}
+    elif name == "view_foreign_output":
+        # seeded change C13-m3: a view whose declared output is produced by a node outside the view must be rejected
+        x = val("x")
+        n1 = ir.Node("", "Relu", [x], name="relu"); n1.outputs[0].name = "y"
+        n2 = ir.Node("", "Neg", [n1.outputs[0]], name="neg"); n2.outputs[0].name = "n"
+        n3 = ir.Node("", "Abs", [n2.outputs[0]], name="abs"); n3.outputs[0].name = "a"
+        n4 = ir.Node("", "Exp", [n3.outputs[0]], name="exp"); n4.outputs[0].name = "out"
+        g = ir.Graph([x], n4.outputs, nodes=[n1, n2, n3, n4], name="main", opset_imports={"": 20})
+        model = ir.Model(g, ir_version=10)
+        view = ir.GraphView([n1.outputs[0]], [n3.outputs[0]], nodes=[n2], name="view")
+        return {"model": model, "gen": gen, "target": view, "univ": [model, view], "kind": 1, "allow": False,
+                "deep": False, "clone": lambda: view.clone()}
     elif name == "subgraph_capture_rejected":
         sc = builtin_scenario("subgraph_capture")
         sub = sc["target"]
@@ -1404,10 +1449,7 @@ def oracle(spec: dict, rename: bool = True) -> list[dict]:
     ev = traversal_events(ir, cg)
     owned = {id(v) for k, v in ev if k == "def"}
     outer = [v for k, v in ev if k == "use" and id(v) not in owned]
-    outer += [v for v in cg.outputs if id(v) not in owned]
-    if kind in (2, 3):
-        # functions of a model are separate scopes
-        pass
+    foreign_out = unmapped_outputs(ir, cg)
     # serialization synchronizes the names of initializer tensors with their values (serde: "make sure the
     # tensor's name is the same as the value's name"), so the first serialization may itself rename a tensor that
     # is also used as an attribute; baselines are taken after one warm-up serialization
@@ -1420,13 +1462,30 @@ def oracle(spec: dict, rename: bool = True) -> list[dict]:
     try:
         clone = sc["clone"]()
     except Exception as e:  # noqa: BLE001
-        if not outer and sorted_py and kind != 3:
+        if not outer and not foreign_out and sorted_py and kind != 3:
             bad("rejected", f"clone of a closed, sorted graph raised {type(e).__name__}: {str(e)[:120]}")
-        if snapshot(ir, sc["model"], skip_uses_of=outer) != before or serialize(ir, sc["model"]) != ser_before:
-            bad("original-changed", "a rejected clone changed the original")
+        now = snapshot(ir, sc["model"], skip_uses_of=outer)
+        if now != before or serialize(ir, sc["model"]) != ser_before:
+            # own values used before their definition are passed through like outer-scope values when the flag is
+            # set (known finding): the abandoned clone's nodes stay registered as their users
+            seen_, ubd = set(), []
+            for k_, v_ in ev:
+                if k_ == "def":
+                    seen_.add(id(v_))
+                elif k_ == "use" and id(v_) in owned and id(v_) not in seen_:
+                    ubd.append(v_)
+            if allow and ubd and serialize(ir, sc["model"]) == ser_before and \
+                    snapshot(ir, sc["model"], skip_uses_of=outer + ubd) == snapshot_minus_uses(before, ubd, ir, sc, outer):
+                bad("rejected-clone-left-users-on-own-values",
+                    f"a rejected clone left its nodes as users of {ubd[0].name!r}, a value of the original used before its definition")
+            else:
+                bad("original-changed", "a rejected clone changed the original: " + first_diff(before, now))
         return fails
     if outer and not allow and kind in (0, 1):
         bad("outer-accepted", f"graph references outer-scope value {outer[0].name!r} but the clone was not rejected")
+    if foreign_out:
+        bad("outer-accepted", f"declared output {foreign_out[0].name!r} is defined outside the cloned region "
+                              "but the clone was not rejected")
     # 1. serializes like the original
     if ser_root is not None:
         sc_ = serialize(ir, clone, normalize_view=(kind == 1))
@@ -1503,6 +1562,22 @@ def oracle(spec: dict, rename: bool = True) -> list[dict]:
     elif serialize(ir, sc["model"]) != ser0:
         bad("edit-clone-changes-original", "editing the clone changed the serialized original")
     return fails
+
+
+def snapshot_minus_uses(before, ubd, ir, sc, outer):
+    """[before] without the use lists of the values in ubd (recomputed by matching value names)."""
+    names = {v.name for v in ubd}
+
+    def strip(x):
+        if isinstance(x, dict):
+            d = {k: strip(v) for k, v in x.items()}
+            if "uses" in d and d.get("name") in names and "flags" in d:
+                del d["uses"]
+            return d
+        if isinstance(x, (list, tuple)):
+            return type(x)(strip(v) for v in x)
+        return x
+    return strip(before)
 
 
 def first_diff(a, b, path="") -> str:
@@ -1610,10 +1685,15 @@ def classify(spec: dict, fails: list[dict]) -> tuple[list[str], list[dict]]:
     keys, rest = [], list(fails)
     sc = scenario_of(spec)
     # (1) use before definition + allow_outer_scope_values: the clone references the original's own value
-    if sc["allow"] and not is_sorted(ir, cloned_graph_of(sc)) and any(f["kind"] == "references-original" for f in rest):
+    unsorted_allow = sc["allow"] and not is_sorted(ir, cloned_graph_of(sc))
+    if unsorted_allow and any(f["kind"] == "references-original" for f in rest):
         keys.append(KNOWN_UNSORTED)
         rest = [f for f in rest if f["kind"] not in ("references-original", "shared", "original-changed",
                                                      "edit-clone-changes-original", "edit-error")]
+    if unsorted_allow and any(f["kind"] == "rejected-clone-left-users-on-own-values" for f in rest):
+        if KNOWN_UNSORTED not in keys:
+            keys.append(KNOWN_UNSORTED)
+        rest = [f for f in rest if f["kind"] != "rejected-clone-left-users-on-own-values"]
     # (2) Value.name setter renames the tensor object shared by clone and original: attributed by re-running the
     # oracle with value renaming switched off
     alias_kinds = ("edit-clone-changes-original", "edit-original-changes-clone", "functional-pass")
